@@ -18,10 +18,32 @@ import EtkVerif.Ops.TableCancun
 namespace EtkVerif.C16
 open Ops Blocks
 
-theorem C16_partition (t : OpTable) (h : List Ev) :
+/-- Needs `JtNotEnd t`: no opcode is flagged both jump target and block-ending
+(`C16_partition_needs_hypothesis` shows the statement is false for a table that
+violates this; `C16_jtNotEnd_cancun` discharges it for the regenerated table). -/
+theorem C16_partition (t : OpTable) (hjt : JtNotEnd t) (h : List Ev) :
     let r := run t h
     r.allBlocks.flatMap (·.ops) = r.fed.map (·.2) ∧ (∀ b ∈ r.allBlocks, b.Shaped t) :=
-  run_partition t h
+  run_partition_of_jtNotEnd t hjt h
+
+/-- The concatenation clause alone holds for every table. -/
+theorem C16_concat (t : OpTable) (h : List Ev) :
+    (run t h).allBlocks.flatMap (·.ops) = (run t h).fed.map (·.2) :=
+  run_flat t h
+
+theorem C16_jtNotEnd_cancun : JtNotEnd Gen.cancun := jtNotEnd_of_all _ (by decide +kernel)
+
+/-- C16 for the separator as it runs (Cancun table): no hypothesis left. -/
+theorem C16_partition_cancun (h : List Ev) :
+    let r := run Gen.cancun h
+    r.allBlocks.flatMap (·.ops) = r.fed.map (·.2) ∧ (∀ b ∈ r.allBlocks, b.Shaped Gen.cancun) :=
+  run_partition_of_jtNotEnd Gen.cancun C16_jtNotEnd_cancun h
+
+theorem C16_partition_needs_hypothesis :
+    ¬ ∀ (t : OpTable) (h : List Ev),
+      (let r := run t h
+       r.allBlocks.flatMap (·.ops) = r.fed.map (·.2) ∧ (∀ b ∈ r.allBlocks, b.Shaped t)) :=
+  run_partition_counterexample
 
 theorem C16_offsets (t : OpTable) (h : List Ev) (off : Nat) (hc : Chained off (run t h).fed) :
     BlocksChained off (run t h).allBlocks :=
